@@ -23,7 +23,8 @@ Judge(r) ==
   ELSE IF r.exit = 0 THEN <<V(r.id, "violation", "", "build of a program with a fault of a known class succeeded")>>
   ELSE IF r.before # r.after THEN <<V(r.id, "violation", "", "a failing build created or modified an output file")>>
   ELSE IF Len(r.diags) = 0 THEN <<V(r.id, "violation", "", "failing build reported no diagnostic")>>
-  ELSE IF r.class # "pastend" /\ ~Located(r) THEN      \* (code across the end of the address space is C09's class of error: an error and no file, no word about where it is reported) <<V(r.id, "violation", "", "no diagnostic names the file and line (and column) of the offending construct")>>
+  \* (code across the end of the address space is C09's class of error: an error and no file, no word about where it is reported)
+  ELSE IF r.class # "pastend" /\ ~Located(r) THEN <<V(r.id, "violation", "", "no diagnostic names the file and line (and column) of the offending construct")>>
   ELSE <<>>
 
 Init == l = 1 /\ out = <<>>
